@@ -478,6 +478,38 @@ func runC13(w *World, r *Report) {
 		}
 	}
 
+	// module-wide: a sentinel other than io.EOF is never matched with == / != (errors travel wrapped: node path,
+	// stream-wrapper path, %w); io.EOF is the one sentinel that is matched by identity (EOF-IDENTITY). The io.EOF sites are
+	// the positive matches that show the recogniser sees such comparisons at all.
+	r.Rule("C13.sentinel-by-is", "no == / != comparison of an error with a package-level sentinel other than io.EOF anywhere in the module (use errors.Is)", 8)
+	{
+		nEOF := 0
+		for _, fn := range w.RepoFuncs("compose", "schema", "internal", "flow", "callbacks", "components", "utils") {
+			instrs(fn, func(in ssa.Instruction) {
+				b, ok := in.(*ssa.BinOp)
+				if !ok || (b.Op != token.EQL && b.Op != token.NEQ) || !isErrorType(b.X.Type()) {
+					return
+				}
+				for _, v := range []ssa.Value{b.X, b.Y} {
+					u, ok := v.(*ssa.UnOp)
+					if !ok {
+						continue
+					}
+					g, ok := u.X.(*ssa.Global)
+					if !ok {
+						continue
+					}
+					if g.Pkg.Pkg.Path() == "io" && g.Name() == "EOF" {
+						nEOF++
+						r.OK("C13.sentinel-by-is", fmt.Sprintf("io.EOF identity test #%d in %s", nEOF, w.fname(origin(fn))), b.Pos(), "end of stream is matched by identity (C13.eof-identity)")
+						continue
+					}
+					r.Fail("C13.sentinel-by-is", fmt.Sprintf("%s compares an error with %s.%s by identity", w.fname(origin(fn)), g.Pkg.Pkg.Name(), g.Name()), b.Pos(), "errors reach this point wrapped (node path, stream-wrapper path, fmt.Errorf %w): an identity comparison with the sentinel stops matching as soon as one wrapper is in between — the documented way to recognise it is errors.Is")
+				}
+			})
+		}
+	}
+
 	// sentinel
 	r.Rule("C13.sentinel", "the step-limit exit of runner.run returns a run error whose cause is the ErrExceedMaxSteps sentinel itself (built at the exit, or once in a package-level variable)", 1)
 	run := w.Fn("compose", "runner.run")
